@@ -427,4 +427,40 @@ theorem pag_side_of_inv (s : PStore) (h : PStore.Inv s) :
 
 end pag
 
+/-! ### 2d. the sparse store -/
+
+section sparse
+open DDS.GenSparse DDS.Gen.Sparse DDS.Gen.SparseProto
+
+theorem sparse_loop1 (l : List (Int × Rat)) : ∀ acc : GoMap Rat,
+    SparseStore.ToProto.loop1 l acc = .done (msetFrom acc l) := by
+  induction l with
+  | nil => intro acc; rfl
+  | cons p l ih =>
+    intro acc
+    obtain ⟨i, c⟩ := p
+    unfold SparseStore.ToProto.loop1
+    exact ih _
+
+/-- sparse `ToProto` (every store, oracle, fuel): `binCounts[int32(i)] = c` for the entries in the oracle's order -/
+theorem sparse_toProto (fuel : Nat) (ord : MapOrder) (g : SparseStore) :
+    SparseStore.ToProto fuel ord g = .ok (sparseMsg (msetFrom [] (mrange ord g.counts))) := by
+  unfold SparseStore.ToProto
+  dsimp only
+  rw [sparse_loop1]; rfl
+
+/-- MAIN (sparse `ToProto`, EVERY lawful order): with `int32` keys the map of the message is the content itself, and
+    its abstraction is the model's `storeToProto` -/
+theorem sparse_toProto_model {g : SparseStore} {c : Content} (h : RepS g c) (fuel : Nat) (ord : MapOrder)
+    (hl : ord.Lawful) (h32 : ∀ p ∈ c, I32 p.1) :
+    SparseStore.ToProto fuel ord g = .ok (sparseMsg c) ∧ some (pbOfGo (sparseMsg c)) = storeToProto (.sp c) := by
+  refine ⟨?_, rfl⟩
+  rw [sparse_toProto, h.1, msetFrom_of_perm c h.2 h32 _ (mrange_perm ord hl c h.2)]
+
+/-- without `int32` keys the wrap merges entries: `{0 ↦ 1, 2^32 ↦ 2}` travels as `{0 ↦ 2}` -/
+theorem sparse_wrap_example :
+    SparseStore.ToProto 0 MapOrder.ascending ⟨[(0, 1), (2 ^ 32, 2)]⟩ = .ok (sparseMsg [(0, 2)]) := by rfl
+
+end sparse
+
 end DDS.GenProtoStore
